@@ -77,6 +77,7 @@ package bytesconv
 //@   ensures r != nil
 
 //@ extern fmt.Errorf(format, a) r
+//@   abstract-too
 //@   allocates
 //@   ensures r != nil
 //@ extern fmt.Sprintf(format, a) r
